@@ -6,7 +6,8 @@ Dimensions: all of 0..17 for every (method, allowNull), random up to 33 biased t
 Probability vectors: Dirichlet-like, with entries down to 1e-9, dyadic, one dominant entry.
 Parameter vectors: uniform in (0,1), coordinates within 1e-9 .. 1e-12 of 0 or 1, dyadic k/16.
 A malformed stream (sum off by more than SMALL, sum next to the SMALL threshold, negative or zero
-entries, parameters outside the constraint, unknown parameter index) exercises the rejections, each
+entries, vectors longer and shorter than the dimension, parameters outside the constraint, unknown
+parameter index) exercises the rejections, each
 followed by a look at the object and, often, by a partial notification (the ratio cache of the
 local-ratio coding is written by setFrequencies before the vector is validated).
 Copies: copy construction, clone(), operator= (also onto itself, in chains), between objects of every
@@ -269,10 +270,41 @@ def history(rng, pre, n, m, a, L):
     return ops
 
 
+def wrong_size(rng, v, ordered):
+    """a vector of another size: longer (extra entries: zeros, or small positive ones with the whole
+    vector renormalised so that the sum test passes) or shorter"""
+    v = list(v)
+    if rng.random() < 0.6 or len(v) <= 1:
+        k = rng.randint(1, 3)
+        if rng.random() < 0.5:
+            v += [0.0] * k
+        else:
+            v += [10 ** rng.uniform(-6, -1) for _ in range(k)]
+            if ordered:
+                v.sort(reverse=True)
+                # ordered values must keep sum one
+                s = fsum_lr(v)
+                v = [x / s for x in v]
+            else:
+                v = normalise(v)
+    else:
+        v = v[: rng.randint(1, len(v) - 1)]
+        if rng.random() < 0.6:
+            # keep the sum at one: only then does the plain setter get past its sum test
+            v = normalise(v) if not ordered else [x / fsum_lr(v) for x in v]
+    return v
+
+
 def malformed(rng, n, m, a):
     """one rejected or out-of-hypothesis operation on Simplex register 0"""
     r = rng.random()
     npar = n - 1
+    if r < 0.12:
+        # another size: a longer vector is defined (the first n entries are read, all are summed),
+        # a shorter one is undefined behaviour (the harness does not execute it, the model says `ub`)
+        p, _ = rand_probs(rng, n)
+        return "setfreq 0 " + hv(wrong_size(rng, p, False))
+    r = (r - 0.12) / 0.88
     if r < 0.2:
         p, _ = rand_probs(rng, n)
         p[rng.randrange(n)] += rng.choice([1e-3, -1e-3, 0.5])
@@ -377,9 +409,12 @@ def generate(seed, tier):
             q, _ = rand_probs(rng, n)
             v = ordered_from_probs(q)
             r = rng.random()
-            if r < 0.4:
+            if r < 0.25:
+                # another size (longer, shorter): rejected since the third repair
+                v = wrong_size(rng, v, True)
+            elif r < 0.5:
                 v.reverse()
-            elif r < 0.7:
+            elif r < 0.75 and n >= 2:
                 i1, i2 = rng.sample(range(n), 2)
                 v[i1], v[i2] = v[i2], v[i1]
             else:
